@@ -1,4 +1,5 @@
 import Driver.Codec
+import Rcgen.Spec.Props
 /- line-protocol driver: one request per line, one response per line -/
 namespace Driver
 open Rcgen Rcgen.Model Sexp
@@ -14,6 +15,9 @@ def nullSigner : Signer := fun _ => .ok []
 def tbsOnly : Out Asn1 → Out Asn1
   | .ok (.cons _ _ (tbs :: _)) => .ok tbs
   | x => x
+
+def failList (fs : List String) : Sexp :=
+  if fs.isEmpty then .atom "ok" else .list (.atom "fail" :: fs.map Sexp.atom)
 
 def decKind (x : Sexp) : R StrKind := do
   match ← x.asAtom with
@@ -110,6 +114,52 @@ def handle (op : String) (args : List Sexp) : R Sexp := do
   | "wrap", [a, tbs, sig] => do
     pure (ofBytes (encode (.seq [.raw (← tbs.asBytes), algIdent (← decAlg a),
                                  .bitStringOctets (← sig.asBytes)])))
+  | "spec-cert", [p, k, i, der] => do
+    let p ← decParams p
+    let k ← decKey k
+    let i ← decIssuer p k i
+    let der ← der.asBytes
+    let inp : Spec.CertInputs := { H := sha2, p := p, subject := k, issuer := i }
+    match Spec.splitSigned der with
+    | none => pure (failList ["C01:outer-structure", "C04:canonical-der"])
+    | some (tbs, _, _) =>
+      pure (failList (
+        Spec.c02Clauses inp tbs ++ Spec.c05CertClauses inp tbs ++ Spec.c09CertClauses inp tbs ++
+        Spec.c01Clauses i.key.alg der (fun t => (Spec.decodeTbsCert t).map (·.sigAlg)) ++
+        Spec.clause "C04:canonical-der" (Spec.certCanonical der) ++
+        Spec.clause "C04:custom-content-verbatim" (p.customExts.all (fun e =>
+          match Spec.decodeTbsCert tbs with
+          | some c => c.exts.any (fun x => x.oid == e.oid && x.value == .opaque e.content)
+          | none => false))))
+  | "spec-csr", [p, k, .list attrs, der] => do
+    let p ← decParams p
+    let k ← decKey k
+    let attrs ← attrs.mapM decAttr
+    let der ← der.asBytes
+    match Spec.splitSigned der with
+    | none => pure (failList ["C01:outer-structure", "C04:canonical-der"])
+    | some (info, _, _) =>
+      pure (failList (
+        Spec.c07Clauses { p := p, subject := k, attrs := attrs } info ++ Spec.c05CsrClauses info ++
+        Spec.c01Clauses k.alg der (fun _ => none) ++
+        Spec.clause "C04:canonical-der" (Spec.csrCanonical der)))
+  | "spec-crl", [p, i, der] => do
+    let p ← decCrlParams p
+    let i ← decIssuerOnly i
+    let der ← der.asBytes
+    let inp : Spec.CrlInputs := { H := sha2, p := p, issuer := i }
+    match Spec.splitSigned der with
+    | none => pure (failList ["C01:outer-structure", "C04:canonical-der"])
+    | some (tbs, _, _) =>
+      pure (failList (
+        Spec.c08Clauses inp tbs ++ Spec.c05CrlClauses inp tbs ++ Spec.c09CrlClauses inp tbs ++
+        Spec.c01Clauses i.key.alg der (fun t => (Spec.decodeTbsCrl t).map (·.sigAlg)) ++
+        Spec.clause "C04:canonical-der" (Spec.crlCanonical der)))
+  | "spec-spki", [k, der] => do
+    let k ← decKey k
+    let der ← der.asBytes
+    pure (failList (Spec.clause "C04:canonical-der" (Spec.spkiCanonical der) ++
+      Spec.clause "C11:spki-is-rfc-encoding" (der == Spec.rfcSpki k)))
   | "spki", [k] => do pure (ofBytes (spkiDer (← decKey k)))
   | "sha", [k, b] => do
     let b ← b.asBytes
